@@ -128,7 +128,7 @@ def test_one(args):
             ok = False
             for attempt in range(3):
                 try:
-                    t = sh(["go", "test", "-vet=off", "-count=1", "-timeout", "120s", "./..."], cwd=wt, timeout=200)
+                    t = sh(["go", "test", "-vet=off", "-count=1", "-timeout", "60s", "./..."], cwd=wt, timeout=100)
                 except subprocess.TimeoutExpired:
                     res = "killed"
                     break
